@@ -37,8 +37,12 @@ if __name__ == "__main__":
     a = sys.argv[1:]
     if a[0] == "--batch":
         ms = json.load(open(a[1]))
+        out_json = None
+        if "--json" in a:
+            i = a.index("--json"); out_json = a[i + 1]; del a[i:i + 2]
         only = a[2] if len(a) > 2 else None
         bad = 0
+        results = []
         for m in ms:
             if only and m["prop"] != only:
                 continue
@@ -52,6 +56,10 @@ if __name__ == "__main__":
                     rule = ln.strip()[:110]
                     break
             print(f"{flag}{m['prop']} {m.get('name', m['old'][:40])!r}: {v} (expected {exp}) {rule}", flush=True)
+            results.append({"prop": m["prop"], "file": m["file"], "name": m.get("name"),
+                            "expected": exp, "verdict": v, "first_rule": rule[:100]})
+            if out_json:
+                json.dump(results, open(out_json, "w"), indent=1)
         sys.exit(1 if bad else 0)
     runs = None
     if "--runs" in a:
